@@ -1,6 +1,110 @@
 import UPVerif.Drv.C01
-/-! C02 uses the same executable model and the same line-protocol handler as C01
-    (the cases differ: interleaved queries on shared states). -/
+import UPVerif.Core.SimIter
+/-!
+C02 uses the executable model and the line protocol of C01 (`Drv/C01.lean`: interleaved queries on shared
+states) and adds the operations on `get_applicable_actions` GENERATORS (`Core/SimIter.lean`), so that a
+history may leave enumerations incomplete, interleave them with each other and with the other queries:
+
+  op ::= … | (open i)    get_applicable_actions(state i): a new generator, addressed by the number of this op
+           | (next j)    next() on the generator opened by op j  ->  (action (obj*)) | end | (raise e)
+           | (close j)   generator.close()                        ->  closed
+           | (throw j)   generator.throw(exception)               ->  closed   (the body has no handler)
+           | (drain j)   the rest of the generator                ->  (drained ((action (obj*))*) end|(raise e))
+
+An `open`/`next`/… op fills no state slot.  Every generator operation goes through `Sim.iterOp`, the
+function the theorems of `Props/C02Iter.lean` are about.
+-/
 namespace UPVerif.Drv.C02
-def handle : UPVerif.Sexp → UPVerif.Sexp := UPVerif.Drv.C01.handle
+open UPVerif UPVerif.Sim
+
+/-- what the runner keeps: state slots (as in C01), for every op number the handle it created (if any),
+    the table of generators -/
+structure St where
+  slots : Array (Option SimState)
+  handles : Array (Option Nat)
+  its : List Iter
+
+def stepSexp : Step → Sexp
+  | .item ai => Drv.C01.instSexp ai
+  | .done => .atom "end"
+  | .raised e => Drv.C01.errSexp e
+
+def ansSexp : IAns → Sexp
+  | .opened _ => .atom "iter"
+  | .step r => stepSexp r
+  | .closed => .atom "closed"
+  | .drained l e => .list [.atom "drained", .list (l.map Drv.C01.instSexp),
+      match e with
+      | none => .atom "end"
+      | some x => Drv.C01.errSexp x]
+  | .noHandle => .atom "no-iter"
+
+def handleOf (st : St) (j : Nat) : Option Nat :=
+  match st.handles[j]? with
+  | some (some h) => some h
+  | _ => none
+
+/-- the generator operation an op denotes (`none` = not a generator op; `some none` = its state /
+    generator does not exist) -/
+def iterOpOf (st : St) : Sexp → Option (Option IOp)
+  | .list [.atom "open", i] => do
+    let n ← i.asNat?
+    match st.slots[n]? with
+    | some (some s) => some (some (.openIt s))
+    | _ => some none
+  | .list [.atom "next", j] => do
+    let n ← j.asNat?
+    some ((handleOf st n).map IOp.next)
+  | .list [.atom "close", j] => do
+    let n ← j.asNat?
+    some ((handleOf st n).map IOp.close)
+  | .list [.atom "throw", j] => do
+    let n ← j.asNat?
+    some ((handleOf st n).map IOp.close)
+  | .list [.atom "drain", j] => do
+    let n ← j.asNat?
+    some ((handleOf st n).map IOp.drain)
+  | _ => none
+
+def isIterHead : Sexp → Bool
+  | .list (.atom h :: _) => h == "open" || h == "next" || h == "close" || h == "throw" || h == "drain"
+  | _ => false
+
+def runOps (W : World) : List Sexp → St → List Sexp → Option (List Sexp)
+  | [], _, out => some out.reverse
+  | op :: ops, st, out =>
+    if isIterHead op then
+      match iterOpOf st op with
+      | none => none
+      | some none =>
+        let a : Sexp := match op with
+          | .list (.atom "open" :: _) => .atom "no-state"
+          | _ => .atom "no-iter"
+        runOps W ops { st with slots := st.slots.push none, handles := st.handles.push none } (a :: out)
+      | some (some io) =>
+        let r := iterOp W st.its io
+        let h : Option Nat := match r.1 with
+          | .opened k => some k
+          | _ => none
+        runOps W ops { slots := st.slots.push none, handles := st.handles.push h, its := r.2 } (ansSexp r.1 :: out)
+    else
+      match Drv.C01.runOp W st.slots op with
+      | none => none
+      | some (ans, s') =>
+        runOps W ops { st with slots := st.slots.push s', handles := st.handles.push none } (ans :: out)
+
+def handle : Sexp → Sexp
+  | .list [.atom "sim", ps, .list (.atom "fn" :: fns), .list (.atom "ops" :: ops)] =>
+    match parseProblem ps, Drv.C01.parseFnTable fns with
+    | some P, some tab =>
+      let W : World := { P := P, simp := Drv.C01.simpTotal (Drv.C01.simpCfg P tab), fn := Drv.C01.fnOfTable tab }
+      let s0 : Option SimState := match getInitialState W with
+        | .ok (some s) => some s
+        | _ => none
+      match runOps W ops { slots := #[s0], handles := #[none], its := [] } [] with
+      | some l => .list l
+      | none => .atom "bad-case"
+    | _, _ => .atom "bad-case"
+  | _ => .atom "bad-case"
+
 end UPVerif.Drv.C02
